@@ -306,7 +306,19 @@ func c18Store(c *Ctx) {
 					return e.Kind == EvCall && isB && b.Name() == "delete" && h.objOf(e.Call.Args[0]) == packets && h.objOf(e.Call.Args[1]) == sig.Params().At(0)
 				})
 				if d < 0 {
-					ok = false
+					// nothing to delete: the path has looked the id up in the map and found it absent
+					absent := false
+					for _, e := range t.Ev {
+						if e.Kind != EvOutcome || e.DefCall == nil || !e.DefCall.CommaOk || e.DefCall.RHS == nil || e.Nilness != 0 || e.Outcome {
+							continue
+						}
+						if ix, isIx := ast.Unparen(e.DefCall.RHS).(*ast.IndexExpr); isIx && h.objOf(ix.X) == packets && h.objOf(ix.Index) == sig.Params().At(0) {
+							absent = true
+						}
+					}
+					if !absent {
+						ok = false
+					}
 				}
 			case "fresh":
 				w := t.first(storeTo(packets))
@@ -352,7 +364,35 @@ func c18Store(c *Ctx) {
 				}
 			}
 			if !walked {
-				ranges = false
+				// or it walks a key list kept by the store and reads every listed packet from the map now
+				viaKeys, reads := false, true
+				for _, e := range t.Ev {
+					if e.Kind == EvLoopBegin {
+						if rs, ok := e.LoopStmt.(*ast.RangeStmt); ok {
+							if fv, _ := h.objOf(rs.X).(*types.Var); fv != nil && fv.IsField() && fv != packets {
+								viaKeys = true
+							}
+						}
+					}
+					if e.Kind == EvCall {
+						if b, isB := e.Callee.(*types.Builtin); isB && b.Name() == "append" {
+							for _, a := range e.Call.Args[1:] {
+								if ix, isIx := ast.Unparen(a).(*ast.IndexExpr); !isIx || h.objOf(ix.X) != packets {
+									reads = false
+								}
+							}
+						}
+					}
+				}
+				zero := false
+				for _, e := range t.Ev {
+					if e.Kind == EvLoopZero {
+						zero = true
+					}
+				}
+				if !(reads && (viaKeys || zero)) {
+					ranges = false
+				}
 			}
 		}
 		r.Check(fi.Name+":fresh listing of the map", !alias && ranges, fi.Decl.Pos(), ot.work, "the listing must be built from the map on every call (a cached or shared slice goes stale when an id is overwritten); origins: "+strings.Join(originStrings(os), ", "))
